@@ -33,7 +33,9 @@ META = {
                   'lock-step simulation with the hand model is proved for all 45 program-counter kinds'),
     'level_text': '',   # filled below
     'level_note': '',
-    'rule': ('case = (initial cache state, one program per thread, schedule); exhaustive: every schedule with <= 2 '
+    'rule': ('case = (initial cache state, how the connection was configured, the class each thread works on, one program per '
+             'thread, schedule); creates with explicit and with database-chosen ids; every statement sent to the shared raw '
+             'connection is a scheduling point; exhaustive: every schedule with <= 2 '
              'preemptions of 2 threads over all ordered op pairs in 3 initial states; seeded random schedules of 3 threads '
              'with 1-3 ops each; distinct = distinct (state, programs, effective access trace); non-trivial = at least '
              'one context switch between unfinished threads'),
@@ -49,7 +51,16 @@ META = {
                  'OS-level starvation / fairness (progress is: some thread is always enabled)',
                  'CacheFactory.clear(); tryGet(); per-instance _SO_writeLock (never taken '
                  'while the cache lock is held, so it cannot take part in a lock cycle with it)',
-                 'threading.Lock, sqlite3 (executed, not verified)'],
+                 'threading.Lock, sqlite3 (executed, not verified)',
+                 'the connection set-up and the DB layer are not in the Lean model: they are EXECUTED - the shared in-memory '
+                 'connection is built through the option-string / URI path in the documented boolean spellings (rotating), and '
+                 'every statement it is sent is a scheduling point; the theorems assume what these layers must provide: rows '
+                 'exist or not atomically, and created ids are distinct (FreshCreates) - an id-retrieval that needs a second '
+                 'statement breaks exactly that and is caught by the replay',
+                 'several classes on one connection: the model is the product of independent copies (C09_classes_independent); '
+                 'the harness projects every multi-class run onto its classes and compares each with the model, and the '
+                 'oracle checks that a thread gets an instance of the class it asked for and that no two classes share a '
+                 'CacheFactory'],
     'assumptions': ['SafeProgs excludes create and expireAll in the same configuration even when they are in one thread sequentially (safe, but outside the theorem; covered by the replay only)',
                     'with doCache=False the map clauses are proved for programs without create only (created() then writes expiredCache lock-free); creates in that mode are covered by the replay',
                     'cullFraction >= 1 (the configuration constant is 2; 0 makes range() raise ValueError)',
